@@ -16,14 +16,14 @@
 (* With both FALSE (the intended protocol) DoneOK holds; TLC must find the      *)
 (* counterexample for either TRUE (model fidelity).                             *)
 EXTENDS Integers, Sequences, FiniteSets, TLC
-CONSTANTS Q, NT, Cap, Faults, IgnoreRowErr, IgnoreHdrErr
+CONSTANTS Q, NT, Cap, Faults, IgnoreRowErr, IgnoreHdrErr, WPR     \* WPR: Write calls per query row (1 for the list forms, more for the long-form tables)
 VARIABLES rd, nxt, ch, closed, sp, q, got, main, nw, rows, fault, faulted
 vars == <<rd, nxt, ch, closed, sp, q, got, main, nw, rows, fault, faulted>>
 Queries == 1..Q
 FaultSet == {[kind |-> "none", at |-> 0]}
             \cup (IF "rd" \in Faults THEN {[kind |-> "rd", at |-> k] : k \in 0..(NT - 1)} ELSE {})
             \cup (IF "width" \in Faults THEN {[kind |-> "width", at |-> 0]} ELSE {})
-            \cup (IF "wr" \in Faults THEN {[kind |-> "wr", at |-> k] : k \in 1..(Q + 1)} ELSE {})
+            \cup (IF "wr" \in Faults THEN {[kind |-> "wr", at |-> k] : k \in 1..(Q * WPR + 1)} ELSE {})
 Init == /\ rd = "run" /\ nxt = 0 /\ ch = <<>> /\ closed = FALSE
         /\ sp = [st |-> "recv", tgt |-> -1, j |-> 1]      \* splitter: receiving | distributing target tgt to query j | blockedErr | closing | done
         /\ q = [i \in Queries |-> [seen |-> 0, st |-> "run"]]  \* per-query goroutine: run | reporting | done
@@ -65,15 +65,16 @@ Report(i)  == /\ q[i].st = "reporting" /\ main = "collect"  \* cResults <- resul
               /\ UNCHANGED <<rd, nxt, ch, closed, sp, nw, rows, fault, faulted>>
 NoQueries  == /\ Q = 0 /\ main = "collect" /\ main' = "write"
               /\ UNCHANGED <<rd, nxt, ch, closed, sp, q, got, nw, rows, fault, faulted>>
-(* sequential writer in Main: call 1 is the header, call k+1 the row of query k *)
-Write      == /\ main = "write" /\ nw < Q + 1
+(* sequential writer in Main: call 1 is the header, calls 2 + (r-1)*WPR .. 1 + r*WPR the row of query r *)
+Write      == /\ main = "write" /\ nw < Q * WPR + 1
               /\ LET k == nw + 1
                      fails == fault.kind = "wr" /\ fault.at = k
                      ignored == IF k = 1 THEN IgnoreHdrErr ELSE IgnoreRowErr
+                     rowdone == k > 1 /\ (k - 1) % WPR = 0            \* the last call of a row
                  IN /\ nw' = k
                     /\ faulted' = (faulted \/ fails)
-                    /\ rows' = IF k > 1 /\ ~fails THEN Append(rows, k - 1) ELSE rows
-                    /\ main' = IF fails /\ ~ignored THEN "retErr" ELSE IF k = Q + 1 THEN "retNil" ELSE "write"
+                    /\ rows' = IF rowdone /\ ~faulted' THEN Append(rows, (k - 1) \div WPR) ELSE rows
+                    /\ main' = IF fails /\ ~ignored THEN "retErr" ELSE IF k = Q * WPR + 1 THEN "retNil" ELSE "write"
               /\ UNCHANGED <<rd, nxt, ch, closed, sp, q, got, fault>>
 MainRecvErr == /\ Alive /\ Selecting /\ (rd = "blockedErr" \/ sp.st = "blockedErr")
               /\ main' = "retErr"
